@@ -227,7 +227,11 @@ class DelimSource(Source[Iterable[str]]):
         delim       = self._delim
 
         if split_lines:
+            after_cr = False
             for text in filter(None,self._source.read()):
+                if after_cr and text[0] == '\n': text = text[1:] #the \r that ended the last chunk already ended the line
+                after_cr = text[-1:] == '\r'
+                if not text: continue
                 lines = text.splitlines()
                 if pending:
                     lines[0] = pending + lines[0]
